@@ -752,6 +752,10 @@ class SterilePacket(Packet):
     def activate(self, ebpf):
         """generate the EBPF program that re-activates a sterile packet"""
         with ebpf.ebpf.wkc_errors == 0:
+            # output is disabled: nothing may be written. A packet which
+            # a previous user of our slot activated must not go on like that
+            for start, stop, cmd in self.on_the_fly:
+                ebpf.pB[start + self.ETHERNET_HEADER] = ECCmd.NOP.value
             ebpf.ebpf.exit(XDPExitCode.TX)
         for start, stop, cmd in self.on_the_fly:
             ebpf.pB[start + self.ETHERNET_HEADER] = cmd.value
